@@ -288,6 +288,74 @@ def fully_unrolled(cirq, circuit):
     raise common.InfraError('controlled circuit operations do not unroll')
 
 
+def check_greedy_layouts(ctx, cirq):
+    """the three one-level unrollers on circuits with several circuit operations in different moments, between plain operations: wherever
+    the contents land, the order of the operations on every qubit is that of the circuit read moment by moment with each sub-circuit in
+    place of its operation (and the unitary is the same)"""
+    rng = ctx.substream('greedy-layouts')
+    n = 60 if ctx.tier == 'quick' else 1200
+    qs = cirq.LineQubit.range(3)
+    gates1 = [cirq.X ** 0.5, cirq.H, cirq.T, cirq.Y ** 0.25, cirq.S]
+    for it in range(n):
+        ident = [0]
+
+        def plain(avail):
+            ident[0] += 1
+            if len(avail) >= 2 and rng.random() < 0.3:
+                a, b = rng.sample(avail, 2)
+                return (cirq.CZ ** 0.5)(a, b).with_tags(('id', ident[0]))
+            return rng.choice(gates1)(rng.choice(avail)).with_tags(('id', ident[0]))
+
+        moments, flat = [], []
+        for _ in range(rng.randint(2, 6)):
+            free = list(qs)
+            ops = []
+            if rng.random() < 0.55:
+                sub_qs = rng.sample(free, rng.choice([1, 1, 2, 3]))
+                body = []
+                for _ in range(rng.randint(1, 3)):
+                    mo, used = [], set()
+                    for _ in range(rng.randint(1, 2)):
+                        o = plain([x for x in sub_qs if x not in used] or sub_qs)
+                        if used & set(o.qubits):
+                            continue
+                        used |= set(o.qubits)
+                        mo.append(o)
+                    body.append(cirq.Moment(mo))
+                sub = cirq.CircuitOperation(cirq.FrozenCircuit(body))
+                if rng.random() < 0.2:
+                    sub = sub.with_tags('wrapped')
+                ops.append(sub)
+                flat += [o for m in body for o in m.operations]
+                free = [x for x in free if x not in sub.qubits]
+            for x in list(free):
+                if rng.random() < 0.4:
+                    o = plain([x])
+                    ops.append(o)
+                    flat.append(o)
+            if ops:
+                moments.append(cirq.Moment(ops))
+        # within a top-level moment the sub-circuit is disjoint from the plain operations: the flat list above is one valid order
+        circuit = cirq.Circuit(moments)
+        if not any(isinstance(o.untagged, cirq.CircuitOperation) for o in circuit.all_operations()):
+            continue
+        want = [{'id': [t[1] for t in o.tags if isinstance(t, tuple)][0], 'wires': sorted(q.x for q in o.qubits)} for o in flat]
+        want_u = cirq.Circuit(flat).unitary(qubit_order=qs, qubits_that_should_be_present=qs)
+        for uname in ('unroll_circuit_op', 'unroll_circuit_op_greedy_earliest', 'unroll_circuit_op_greedy_frontier'):
+            ctx.count('check', 'layout:' + uname)
+            ctx.case(['greedy-layout', uname, repr(circuit)], True)
+            rep = {'lines': [{'transformer': uname, 'circuit': repr(circuit)}], 'theorem_or_correspondence': 'per-wire order of the unrolled form (C06_same_wire_order_is_swaps)'}
+            try:
+                out = getattr(cirq, uname)(circuit, tags_to_check=None)
+            except (ValueError, IndexError, KeyError) as e:
+                ctx.report_witness(f'unroll:{uname}:raises', f'{uname} fails on a valid circuit', dict(rep, impl_out=[f'{type(e).__name__}: {e}'[:200]], spec_out=['the unrolled circuit']))
+                continue
+            got = [{'id': ([t[1] for t in o.tags if isinstance(t, tuple)] or [-1])[0], 'wires': sorted(q.x for q in o.qubits)} for o in out.all_operations()]
+            same = sorted(g['id'] for g in got) == sorted(w['id'] for w in want) and ctx.driver.ask([{'p': 'C06', 'op': 'same_order', 'a': want, 'b': got}])[0]
+            if not same or not np.allclose(out.unitary(qubit_order=qs, qubits_that_should_be_present=qs), want_u, atol=1e-8):
+                ctx.report_witness(f'unroll:{uname}', f'{uname}: the order of the operations on some qubit differs from the circuit read with every sub-circuit in place', dict(rep, impl_out=[repr(out)[:2500]], spec_out=[want]))
+
+
 def records_key(records):
     return tuple(sorted((k, tuple(tuple(tuple(int(x) for x in inst) for inst in rep) for rep in v)) for k, v in records.items()))
 
@@ -312,6 +380,7 @@ def run(ctx: common.Run):
     if not ok:
         ctx.report_unproved('lean-build', f'{failing}', {'theorem_or_correspondence': failing})
         return
+    check_greedy_layouts(ctx, cirq)
     n = 120 if ctx.tier == 'quick' else 1500
     rng = ctx.substream('nest')
     cases, reqs = [], []
